@@ -32,12 +32,13 @@ class Mismatch(Exception):
 
 class Ev:
     """one expected callback"""
-    __slots__ = ('kind', 'payload', 'id')
+    __slots__ = ('kind', 'payload', 'id', 'scalar')
 
     def __init__(self, kind, payload, evs):
         self.kind = kind
         self.payload = payload
         self.id = len(evs)
+        self.scalar = False          # a scalar item's event (its data name is reported just before it)
         evs.append(self)
 
 
@@ -52,6 +53,7 @@ def build(doc):
             if e[0] == 'item':
                 node['entries'].append(dict(kind='item', name=e[1], value=GC.parsed_value(e[2]),
                                             ev=Ev('item', (e[1], GC.parsed_value(e[2])), evs)))
+                evs[-1].scalar = True
             elif e[0] == 'loop':
                 names = e[1]
                 ln = dict(kind='loop', names=names, start=Ev('loop_start', (None, tuple(names)), evs), packets=[])
@@ -375,6 +377,7 @@ def run_program(L, data, evs, root, program, label, mode, info, collect=None, om
     if omit:
         program = dict((e, a) for e, a in program.items() if evs[e].kind not in omit)
     spec, want_rc, prog, content = simulate(root, program)
+    spec0 = spec
     if omit:
         spec = [(eid, flag) for eid, flag in spec if evs[eid].kind not in omit]
     state = {'pos': 0, 'problems': []}
@@ -397,8 +400,9 @@ def run_program(L, data, evs, root, program, label, mode, info, collect=None, om
             state['pos'] = len(spec) + 1
         return TRAVERSE_END
 
+    watch_names = collect is None and (sum(program) + len(program) + len(omit)) % 3 == 0
     res = parsing.parse(L, data, parsing.make_opts(), 'new' if mode == 'store' else None, 'accept',
-                        handler_answer_fn=answer_fn, syntax=(collect is not None), omit=omit)
+                        handler_answer_fn=answer_fn, syntax=(collect is not None or watch_names), omit=omit)
     try:
         for k, d in res.problems:
             raise Mismatch(k, d)
@@ -410,6 +414,34 @@ def run_program(L, data, evs, root, program, label, mode, info, collect=None, om
                 raise Mismatch('events:%s:must-missing:%s' % (evs[eid].kind, label), 'callback %s %s never came [program %r, %s]' % (evs[eid].kind, short(evs[eid].payload), describe(program, evs), mode))
         if res.errors:
             raise Mismatch('events:error-callback:%d:%s' % (res.errors[0][0], label), 'error %r reported on a well-formed document [program %r, %s]' % (res.errors[0], describe(program, evs), mode))
+        if watch_names:
+            # the data-name callback follows the same rule: a name is reported exactly where its scalar item / its
+            # loop header is not bypassed (judged only on programs all of whose handlers are installed)
+            full = dict(spec0)
+            lo, hi = {}, {}
+            for ev in evs:
+                if getattr(ev, 'scalar', False):
+                    defined = [ev.payload[0]]
+                elif ev.kind == 'loop_start':
+                    defined = list(ev.payload[1])
+                else:
+                    continue
+                flag = full.get(ev.id)
+                for nm in defined:
+                    if flag == 'must':
+                        lo[nm] = lo.get(nm, 0) + 1
+                    if flag is not None:
+                        hi[nm] = hi.get(nm, 0) + 1
+            seen = {}
+            for kind, line, col, text_, nh, ne in res.syntax:
+                if kind == 'name':
+                    seen[text_] = seen.get(text_, 0) + 1
+            for nm in set(list(seen) + list(lo)):
+                c = seen.get(nm, 0)
+                if c > hi.get(nm, 0):
+                    raise Mismatch('syntax:dataname:bypassed-name-reported:%s' % label, 'data name %r was reported %d time(s) to the data-name callback; at most %d of its items / loop headers are not bypassed [program %r, %s]' % (nm, c, hi.get(nm, 0), describe(program, evs), mode))
+                if c < lo.get(nm, 0):
+                    raise Mismatch('syntax:dataname:missing:%s' % label, 'data name %r was reported %d time(s), its items / loop headers that every handler lets through number %d [program %r, %s]' % (nm, c, lo.get(nm, 0), describe(program, evs), mode))
         if res.rc != want_rc:
             raise Mismatch('events:rc:%s:want%d:got%d' % (label, want_rc, res.rc), 'cif_parse returned %d, expected %d [program %r, %s]' % (res.rc, want_rc, describe(program, evs), mode))
         if mode == 'store':
